@@ -26,7 +26,7 @@ KNOB_CLAUSES = ('cwd', 'umask', 'stdin', 'shell', 'mail-unwanted', 'mail-count',
 ALL_CLAUSES_KNOBS = ('slowmail', 'mailfail', 'nomailer', 'slowpipe', 'relfile', 'devnull-o', 'devnull-e', 'stopcont', 'earlyexit')
 # earlyexit: the job has terminated (and is still reapable) before posix_spawn returns to echsx; echsx must be back
 # within this many seconds
-EARLY_HORIZON = 5.0
+EARLY_HORIZON = 12.0
 # flagorder: the three mail flag lines of the request in every order, X-ECHS-MAIL-RUN given as an explicit 0
 FLAG_ORDERS = ('ROE', 'REO', 'ORE', 'OER', 'ERO', 'EOR')
 # the umask menu: both ends, the usual ones, and the two largest values a request can carry
